@@ -222,20 +222,13 @@ def case_pipe(ctx, inp):
         ctx.fail("expression engine value differs from the classic engine", observed=val.tolist(), expected=cval.tolist())
     cchunks = [list(map(int, c)) for c in classic.chunks]
     if cchunks != ans["lazy_chunks"]:
-        sig = None
-        strip = lambda cs: [[x for x in c if x] or [0] for c in cs]     # noqa: E731
-        if (any(0 in c for c in cchunks) or any(0 in c for c in ans["lazy_chunks"])) and strip(cchunks) == strip(ans["lazy_chunks"]):
-            sig = "expr:zero-length-chunk:chunks-differ-from-classic"
-            ctx.branch("known: zero-length chunk kept by one engine only")
-        ctx.fail("expression engine chunks differ from the classic engine", sig=sig, observed=ans["lazy_chunks"], expected=cchunks)
+        ctx.fail("expression engine chunks differ from the classic engine", observed=ans["lazy_chunks"], expected=cchunks)
+    if any(0 in c for c in cchunks):
+        ctx.branch("zero-length chunk in the result")
     if str(classic.dtype) != ans["lazy_dtype"]:
         ctx.fail("expression engine dtype differs from the classic engine", observed=ans["lazy_dtype"], expected=str(classic.dtype))
     if ans["opt_chunks"] != ans["lazy_chunks"]:
-        sig = None
-        if any(0 in c for c in ans["lazy_chunks"]) and [[x for x in c if x] or [0] for c in ans["lazy_chunks"]] == ans["opt_chunks"]:
-            sig = "expr:elemwise-align:zero-length-chunk:lazy-chunks-differ"
-            ctx.branch("known: zero-length chunk dropped by alignment")
-        ctx.fail("optimized expression reports different chunks", sig=sig, observed=ans["opt_chunks"], expected=ans["lazy_chunks"])
+        ctx.fail("optimized expression reports different chunks", observed=ans["opt_chunks"], expected=ans["lazy_chunks"])
     for op in sorted(set(_ops(prog))):
         ctx.branch("op=" + op)
     if prog["op"] == "rechunk" or (prog["op"] == "reduce" and prog["a"]["op"] == "rechunk" and prog["a"]["a"]["op"] == "from_array"):
@@ -552,11 +545,72 @@ def gen_index(ctx, n):
         yield "pipe", {"prog": prog}
 
 
+def _zero_leaf(rng, shape):
+    """an array of `shape` that carries zero-length chunks: strided slicing of a chunked source (x[0:2:2] on chunks
+    (1, 2, 1) has chunks (1, 0)) on length-one and longer axes"""
+    big, index, chunks = [], [], []
+    for n in shape:
+        if rng.random() < 0.7:
+            # step 2 over blocks arranged so that a block contributes no element: [1, 2, 1, 2, ...] sliced 0:2n:2
+            big.append(2 * n + 1)
+            cs, tot = [], 0
+            while tot < 2 * n + 1:
+                c = min(rng.choice([1, 2, 2, 3]), 2 * n + 1 - tot)
+                cs.append(c)
+                tot += c
+            chunks.append(cs)
+            index.append([0, 2 * n, 2])
+        else:
+            big.append(n)
+            chunks.append(list(U.rand_chunks_1d(rng, n)))
+            index.append([0, n, 1])
+    data = [rng.randint(-4, 4) for _ in range(U.prod_shape(tuple(big)))]
+    return {"op": "getitem", "index": index,
+            "a": {"op": "from_array", "data": data, "shape": big, "dtype": "int64", "chunks": chunks}}
+
+
+def gen_zero_chunk(ctx, n):
+    """zero-length chunks (also on length-one axes) meeting operand alignment: elementwise with equal shapes, with
+    broadcasting, concatenate / stack along another axis, then a reduction — lazily reported chunks must equal the
+    optimized expression's and the classic engine's"""
+    rng = ctx.rng
+    for _ in range(n):
+        nd = rng.randint(1, 3)
+        shape = tuple(rng.choice([1, 1, 2, 3]) for _ in range(nd))
+        a = _zero_leaf(rng, shape)
+        r = rng.random()
+        if r < 0.4:
+            other = tuple(m if rng.random() < 0.6 else 1 for m in shape)
+            if rng.random() < 0.3:
+                other = other[rng.randint(0, nd - 1):]
+            b = _zero_leaf(rng, other) if rng.random() < 0.5 else _pipe_leaf(rng, other)
+            prog = {"op": "binary", "fn": rng.choice(["add", "subtract", "multiply", "maximum"]), "a": a, "b": b}
+            if rng.random() < 0.5:
+                prog["a"], prog["b"] = prog["b"], prog["a"]
+        elif r < 0.7:
+            ax = rng.randrange(nd)
+            args = [a] + [(_zero_leaf if rng.random() < 0.4 else _pipe_leaf)(rng, tuple(shape[:ax]) + (rng.randint(1, 2),) + tuple(shape[ax + 1:]))
+                          for _ in range(rng.randint(1, 2))]
+            rng.shuffle(args)
+            prog = {"op": "concatenate", "axis": ax, "args": args}
+        elif r < 0.85:
+            args = [a] + [(_zero_leaf if rng.random() < 0.4 else _pipe_leaf)(rng, shape) for _ in range(rng.randint(1, 2))]
+            rng.shuffle(args)
+            prog = {"op": "stack", "axis": rng.randint(0, nd), "args": args}
+        else:
+            prog = {"op": "unary", "fn": "negative", "a": a}
+        if rng.random() < 0.35:
+            prog = {"op": "reduce", "fn": rng.choice(["sum", "max", "min", "mean"]), "axis": rng.choice([None, 0, -1]),
+                    "keepdims": rng.random() < 0.5, "split_every": rng.choice([None, 2]), "a": prog}
+        yield "pipe", {"prog": prog}
+
+
 def generate(ctx):
     yield from gen_index(ctx, ctx.n(120, 1500))
     yield from gen_grid_reduce(ctx, ctx.n(30, 300))
     yield from gen_joint(ctx, ctx.n(40, 400))
     yield from gen_multistage(ctx, ctx.n(25, 250))
+    yield from gen_zero_chunk(ctx, ctx.n(40, 500))
     # the defect found while building this check (fixed): x + y with differently chunked operands
     yield "trace", {"prog": {"op": "binary", "fn": "add",
                              "a": {"op": "from_array", "data": [1, 2, 3, 4], "shape": [4], "dtype": "int64", "chunks": [[2, 2]]},
